@@ -117,5 +117,6 @@ def run_check(prop, tier):
         n = len(per_rule.get(rid, ()))
         if n < fl and not R.errors:
             R.error(f"rule {rid}: only {n} instances found, floor is {fl} (confirmed by hand) - rule would pass vacuously")
+    import fdi
     return R.finish(mod.EXPLANATION, mod.ASSUMPTIONS, mod.NOT_DECIDED, extra={'instance_floors': floors,
-                    'instances_per_rule': {k: len(v) for k, v in sorted(per_rule.items())}})
+                    'instances_per_rule': {k: len(v) for k, v in sorted(per_rule.items())}, 'decision_tables': dict(fdi.STATS)})
